@@ -11,7 +11,7 @@ from __future__ import annotations
 import types
 from typing import Any, Dict, List, Tuple
 
-from engine import families, par, report, stepbmc, symnum
+from engine import families, par, report, stepbmc, symnum, tracebmc
 
 PID = "C20"
 
@@ -68,8 +68,28 @@ def table_setdefault(cls: Any) -> Tuple[bool, List[int]]:
     return False, lines
 
 
+def constructor_call(cname: str) -> Any:
+    """A direct call of the class with fixed arguments denoting a key nobody has built yet (the
+    operators' lru_cache wrappers are bypassed: extraction re-executes the call many times)."""
+    import measured
+
+    cls = getattr(measured, cname)
+    if cname == "Dimension":
+        args: Tuple = ((0, 7, -5) + (0,) * (len(measured.Number.exponents) - 3),)
+    elif cname == "Prefix":
+        args = (10, 37)
+    elif cname == "Unit":
+        a, b = measured.Length.unit("c20-xa", "c20-xa"), measured.Time.unit("c20-xb", "c20-xb")
+        args = (measured.IdentityPrefix, {a: 1, b: 1}, measured.Length * measured.Time)
+    elif cname == "Logarithm":
+        args = (7.0, measured.Prefix(10, -5))
+    else:
+        args = (measured.Logarithm(11.0), 3 * measured.One)
+    return lambda: cls(*args)
+
+
 def replay(cname: str, threads: int, schedule: List[int], trace: List[Tuple],
-           store_lines: List[int] = ()) -> str:
+           store_lines: List[int] = (), code_spec: List[Tuple[str, int]] = ()) -> str:
     setup, expr, clsc = SETUP[cname]
     tr = "\n".join(f"#   thread {k}  line {ln}  {act:14s} {src}" for k, ln, act, src in trace)
     return families.REPLAY_IMPORTS + f"""import threading, queue
@@ -77,7 +97,30 @@ def replay(cname: str, threads: int, schedule: List[int], trace: List[Tuple],
 {tr}
 {setup}
 cls = {clsc}
-codes = {{cls.__new__.__code__, cls.__init__.__code__}}
+CODE_SPEC = {list(code_spec)!r}     # (function name, first line) of the functions the model steps through
+def find_codes(spec):
+    spec = {{tuple(x) for x in spec}}
+    found, seen = set(), set()
+    def visit_code(c):
+        if id(c) in seen: return
+        seen.add(id(c))
+        if (c.co_name, c.co_firstlineno) in spec: found.add(c)
+        for k in c.co_consts:
+            if hasattr(k, 'co_code'): visit_code(k)
+    def visit(obj):
+        f = getattr(obj, '__func__', obj)
+        f = getattr(f, '__wrapped__', f)
+        c = getattr(f, '__code__', None)
+        if c is not None: visit_code(c)
+    import types
+    for mod in list(sys.modules.values()):
+        if getattr(mod, '__name__', '').split('.')[0] != 'measured': continue
+        for v in list(vars(mod).values()):
+            visit(v)
+            if isinstance(v, type):
+                for w in list(vars(v).values()): visit(w)
+    return found
+codes = find_codes(CODE_SPEC) if CODE_SPEC else {{cls.__new__.__code__, cls.__init__.__code__}}
 # a table that is not a builtin dict: also stop before the store inside its Python-level setdefault
 STORE_LINES = {list(store_lines)!r}
 sd = getattr(type(cls._known), 'setdefault', None)
@@ -140,16 +183,37 @@ def worker(task: Tuple) -> Dict[str, Any]:
 
     cls = getattr(measured, cname)
     atomic, store_lines = table_setdefault(cls)
-    steps = stepbmc.extract(cls, "_known", env_for(cname), atomic_setdefault=atomic)
-    res = stepbmc.search(steps, threads, timeout_ms=120000)
+    # the step system: every trace of the real constructor under a scripted table
+    import os
+
+    ex = tracebmc.Extraction(cls, constructor_call(cname), (os.path.dirname(measured.__file__),))
+    traces, codes = ex.all_traces()
+    tracebmc.annotate(traces, codes, atomic)
+    res = tracebmc.search(traces, threads, timeout_ms=120000)
     res["class"] = cname
     res["table_type"] = type(cls._known).__name__
     res["setdefault_atomic"] = atomic
-    res["program"] = [repr(s) for s in steps]
+    res["functions"] = [f"{c.co_name}:{c.co_firstlineno}" for c in codes]
+    res["program"] = [[repr(s_) for s_ in tr.steps] + [f"returns {tr.ret}"] for tr in traces]
+    code_spec = [(c.co_name, c.co_firstlineno) for c in codes]
+    # cross-check: the AST-derived step system of stepbmc, where its statement forms apply
+    try:
+        steps = stepbmc.extract(cls, "_known", env_for(cname), atomic_setdefault=atomic)
+        if not any(s_.action in (stepbmc.STORE, stepbmc.SETDEFAULT_RET, stepbmc.SETDEFAULT_ASSIGN,
+                                 stepbmc.SETDEFAULT_DISCARD, stepbmc.SDW_RET, stepbmc.SDW_ASSIGN,
+                                 stepbmc.SDW_DISCARD) for s_ in steps):
+            raise symnum.HarnessError("the constructor does not store into the table itself")
+        r2 = stepbmc.search(steps, threads, timeout_ms=120000)
+        res["ast_model"] = r2["result"]
+        if {r2["result"], res["result"]} == {"sat", "unsat"}:
+            raise symnum.HarnessError(f"{cname}: the trace-derived and the AST-derived step systems disagree "
+                                      f"({res['result']} vs {r2['result']})")
+    except symnum.HarnessError as e:
+        if "disagree" in str(e):
+            raise
+        res["ast_model"] = f"not applicable ({str(e)[:120]})"
     if res["result"] == "sat":
-        res["replay"] = replay(cname, threads, res["schedule"],
-                               [t for t in res["trace"] if t[2] != "LOCK_REL"], store_lines)
-        res["schedule"] = [k for k, _, act, _ in res["trace"] if act != "LOCK_REL"]
+        res["replay"] = replay(cname, threads, res["schedule"], res["trace"], store_lines, code_spec)
     return res
 
 
@@ -175,22 +239,31 @@ def main(tier: str, selftest_cases: int = 0) -> int:
             validated += 1
             rep.violation(f"C20:race:{cname}", f"{cname}: under schedule {r['schedule']} the threads obtain "
                           f"objects {r['rets']} and the table keeps {r['table']}", r["replay"])
-        rep.sample({"class": cname, "threads": t, "program": r["program"][:14], "verdict": r["result"],
+        rep.sample({"class": cname, "threads": t, "traces": r["program"][:6], "verdict": r["result"],
+                    "functions": r["functions"], "ast_cross_check": r["ast_model"],
                     "schedule": r.get("schedule")}, 5)
-    rep.functions.update([f"measured.{c}.__new__" for c in SETUP] + [f"measured.{c}.__init__" for c in SETUP])
+        rep.functions.update(f"measured.{cname}: {f}" for f in r["functions"])
+        rep.coverage.setdefault("ast_cross_check", {})[f"{cname}/{t}"] = r["ast_model"]
+    rep.functions.update([f"measured.{c}.__new__" for c in SETUP])
     rep.coverage.update(states=max(states, 1), transitions=max(transitions, 1),
                         traces_validated_against_impl=validated, exhaustive=True,
                         selftest_cases=selftest_cases)
-    rep.coverage["bounds"] = (f"threads: {threads}; one atomic step per source line of __new__ and __init__; "
+    rep.coverage["bounds"] = (f"threads: {threads}; one atomic step per source line of the constructor and of "
+                              "every helper on the call stack of a table operation; "
                               "first-time construction of one key; all schedules up to the horizon "
                               "(= total number of steps), decided symbolically by z3 (schedule = integer "
                               "sequence); 'states' counts state variables of the unrolling, 'transitions' "
                               "scheduled steps")
     rep.coverage["explanation"] = (
-        "Step systems are regenerated from the current source by an AST extractor that recognises "
-        "table tests, loads, stores, dict.setdefault and `with lock:` blocks and refuses anything "
-        "else; a reachability witness (some schedule completes) guards against vacuity; a schedule "
-        "found is replayed on real threads driven line by line through sys.settrace.")
+        "Step systems are regenerated on every run by executing the real constructor with its intern "
+        "table replaced by a scripted stand-in and enumerating the table's possible answers by "
+        "re-execution (every trace = one path of the program; one step per traced source line, with "
+        "the table operations it performs); z3 searches the interleavings of T threads each on one "
+        "trace, a trace being feasible only while the shared table gives the answers it assumed. "
+        "Where its statement forms apply, the AST-derived step system of engine/stepbmc.py is "
+        "checked as well and must agree. A reachability witness (some schedule completes) guards "
+        "against vacuity; a schedule found is replayed on real threads driven line by line through "
+        "sys.settrace over the same functions.")
     rep.assumptions += ["line-level interleavings only (CPython may also switch inside a line)",
                         "dict.setdefault / `with lock` are atomic / mutually exclusive (GIL, C-level hash)",
                         "lru_cache wrappers of _multiply/_divide may call the wrapped function concurrently (documented)"]
